@@ -271,4 +271,5 @@ def run(tier, seed, part=None):
                 params = {"gen": gen, "max_tick": 3, "failw": True}
                 res = explorer.explore(SPEC, params, depth, dev, time_cap=cap, seed=seed, label=f"at{gen}/d{depth}/v{dev}")
                 chk.add_explorer(f"at{gen}/free", SPEC, params, res, {"depth": depth, "deviations": dev})
+    chk.add_audit(SPEC, {"gen": 4, "script": [["accept"], ["answer"], ["answer"]], "max_tick": 99}, 4, 1, limit=1500 if tier == "thorough" else 300)
     return chk.finish()
